@@ -65,8 +65,11 @@ Theorem C10_output_decodes : forall input ms out_bytes,
   bytes_ok input = true -> crop_tool input ms = Some (Ok out_bytes) -> lenN out_bytes < 18446744073709551616 ->
   exists ts ci out ranges swm, decode_file_sr input = FOk ts /\ scope input ts = Some ci /\
     crop_tree ts ci ms = Ok (out, ranges, swm) /\
-    (forallb exact_box ts = true -> forallb tree_fits out = true -> output_ok input ci ts out ranges out_bytes).
-Proof. exact crop_tool_decodes. Qed.
+    (forallb exact_box ts = true -> forallb tree_fits out = true ->
+     output_ok input ci ts out ranges out_bytes /\
+     (* with C10_output_size: the boxes encoded are exactly sizeWithoutMdat bytes, the new mdat starts right there *)
+     exists pre tail, file_encode_w out = Ok pre /\ out_bytes = pre ++ tail /\ lenN pre = swm).
+Proof. exact crop_tool_decodes_pos. Qed.
 Print Assumptions C10_output_decodes.
 
 (* what the correspondence check runs (crop_tool_report: one pass, also returns the observables the driver compares) is crop_tool *)
